@@ -236,6 +236,21 @@ theorem C07_session_untouched_voice_partial (fuel : Nat) (sr : UInt64) (Pold Pne
     refine C06_agreeing_machines_same_future fuel Pnew sr inputs ln hln hself.symm hcov (k + 1) _ _ ⟨rfl, rfl, ?_⟩
     exact agree_transplant ln hln preN postN sj self cells hcn st' _ (canon_conformsS ln st' hln hcanon) hvoice hw
 
+/-- the judge's test `carriesChild` (child INDICES of the published skeletons) gives the hypothesis `carriesRange` (word
+OFFSETS of the labelled layouts) of the two theorems above, when no child of `dsp` is pruned from the skeletons (every call
+site of `dsp` is a function with state, as the voices are): the voice is child `|feed| + |cells before it|` and its offset
+is `selfSize + sizeCells (cells before it)` -/
+theorem C07_carriesChild_gives_carried_range (lo ln : LNode) (preO postO preN postN : List LCell) (si sj : Nat)
+    (self : Option Shape) (cells : List LCell)
+    (hco : lo.cells = preO ++ .child si self cells :: postO) (hcn : ln.cells = preN ++ .child sj self cells :: postN)
+    (hpo : publishedSk lo = lo.sk) (hpn : publishedSk ln = ln.sk)
+    (h : carriesChild (publishedSk lo) (publishedSk ln) ((feedOf lo.self).length + preO.length)
+      ((feedOf ln.self).length + preN.length) = true) :
+    carriesRange (planPatches (publishedSk lo) (publishedSk ln)) (selfSize lo.self + sizeCells preO)
+      (selfSize ln.self + sizeCells preN) (LNode.size ⟨self, cells⟩) = true := by
+  have := (carriesRange_of_carriesChild lo ln preO postO preN postN _ _ hco hcn hpo hpn h).2
+  simpa [LCell.size, LNode.size] using this
+
 /-! non-vacuity of the two theorems above (all hypotheses at once): `cnt(x) = self + x`, `lag(x) = mem(x)`; the old program
 is `let c1 = cnt(1); (c1, c1)`, the edit inserts a voice in front: `let c2 = lag(2); let c1 = cnt(1); (c2, c1)`.  The
 published skeletons are `F[F[E1]]` and `F[F[M1],F[E1]]`, the plan carries the word of `cnt` from offset 0 to offset 1; the
@@ -256,9 +271,11 @@ example (fuel : Nat) (sr : UInt64) (inputs : Nat → List UInt64) :
       (selfSize ln.self + sizeCells [.child 2 none [.mem 1]]) (LNode.size ⟨some .num, []⟩) = true ∧
     Machine.init fuel Pold sr = .ok m0 ∧ Machine.init fuel Pnew sr = .ok m0 ∧
     prefixRun fuel Pold sr inputs 0 m0 = some ([], m0) ∧
-    Conforms lo m0.root ∧ ConformsS ⟨some .num, []⟩ (m0.root.childAt 1) := by
+    Conforms lo m0.root ∧ ConformsS ⟨some .num, []⟩ (m0.root.childAt 1) ∧
+    publishedSk lo = lo.sk ∧ publishedSk ln = ln.sk ∧
+    carriesChild (publishedSk lo) (publishedSk ln) ((feedOf lo.self).length + 0) ((feedOf ln.self).length + 1) = true := by
   intro cntF lagF Pold Pnew lo ln m0
-  refine ⟨rfl, rfl, rfl, ?_, ?_, rfl, rfl, by decide +kernel, rfl, rfl, rfl, ?_, ?_⟩
+  refine ⟨rfl, rfl, rfl, ?_, ?_, rfl, rfl, by decide +kernel, rfl, rfl, rfl, ?_, ?_, rfl, rfl, by decide +kernel⟩
   · intro d hd
     simp only [Pnew, List.mem_cons, List.not_mem_nil, or_false] at hd
     rcases hd with rfl | rfl <;> simp [SitesOk, siteLens, cntF, lagF]
